@@ -38,7 +38,7 @@ SC_OPS = {"add_node", "add_nodes_from", "remove_node", "remove_nodes_from", "set
 def cases(draw, tier):
     cls = draw(st.sampled_from(["H", "H", "DH", "SC"]))
     kind = draw(nets.kinds)
-    spec = draw(nets.net_spec(cls=cls, kind=kind, max_edges=5, allow_empty=(cls != "SC"), nested=True, tuples=True))
+    spec = draw(nets.net_spec(cls=cls, kind=kind, max_edges=5, allow_empty=(cls != "SC"), nested=True, tuples=True, float_ids=True))
     n = 8 if tier == "quick" else 16
     if cls == "H":
         op = hops.op_strategy(kind, none_p=True, bulk_empty=False, heavy=False, only=H_OPS)
@@ -47,7 +47,8 @@ def cases(draw, tier):
     else:
         op = scops.op_strategy(kind, none_p=True, unique_bulk=True, only=SC_OPS)
     return {"cls": cls, "kind": kind, "base": spec, "how": draw(st.sampled_from(HOWS)), "side": draw(st.sampled_from(["source", "derived"])),
-            "ops": draw(st.lists(op, max_size=n)), "nested": draw(st.booleans()), "adds": draw(st.integers(1, 3))}
+            "ops": draw(st.lists(op, max_size=n)), "nested": draw(st.booleans()), "adds": draw(st.integers(1, 3)),
+            "awkward": draw(st.integers(0, 3)) == 0}
 
 
 def strategy(tier):
@@ -119,6 +120,8 @@ def run_case(case, ctx):
     ctx.event("class:" + cls)
     ctx.event("how:" + how)
     H = nets.build(case["base"])
+    if case.get("awkward"):
+        nets.awkward_attr_names(H)
     D = derive(H, how)
     ctx.check(type(D) is type(H), ("equal", how, cls, "class"), repr(type(D)))
     a, b = nets.snap_obs(H), nets.snap_obs(D)
@@ -182,5 +185,12 @@ def run_case(case, ctx):
     if D2 is not None:
         a, b = nets.snap_obs(H), nets.snap_obs(D2)
         ctx.check(unordered(a) == unordered(b), ("equal", how, cls, "second-derivation-is-stale"), lambda: "source %r derived %r" % (unordered(a), unordered(b)))
+        # ... and it keeps assigning fresh IDs too (the source may by now hold float / numpy / exotic IDs from the history)
+        if not D2.is_frozen:
+            n0 = len(b[2])
+            want = add_auto(D2, cls, 20)
+            c = nets.snap_obs(D2)
+            ok = all(e in c[3] and c[3][e] == b[3][e] for e in b[3])
+            ctx.check(ok and len(c[2]) == n0 + want, ("fresh-id", how, cls, "second-derivation", "existing-edge-overwritten"), lambda: "%d -> %d edges, expected +%d; ids %r" % (n0, len(c[2]), want, sorted(map(repr, c[3]))))
     explicit = any(e[0] is not None for e in case["base"]["edges"])
     ctx.mark((has_nested(case["base"]) or explicit) and changed)
